@@ -20,16 +20,17 @@ inline auto gen_arg() -> rc::Gen<std::uint32_t>
 
 inline auto gen_op(std::uint32_t ncodes) -> rc::Gen<RawOp>
 {
-    return rc::gen::map(rc::gen::tuple(rc::gen::inRange<std::uint32_t>(0, ncodes), gen_arg(), gen_arg(), gen_arg()), [](auto const& t) {
+    // resize(): rapidcheck's inRange collapses towards the lower bound at small sizes; op codes and arguments must not
+    return rc::gen::resize(100, rc::gen::map(rc::gen::tuple(rc::gen::inRange<std::uint32_t>(0, ncodes), gen_arg(), gen_arg(), gen_arg()), [](auto const& t) {
         return RawOp{std::get<0>(t), std::get<1>(t), std::get<2>(t), std::get<3>(t)};
-    });
+    }));
 }
 
 inline auto gen_ops_case(std::uint32_t ncfg, std::uint32_t ncodes, int max_ops) -> rc::Gen<OpsCase>
 {
     // length is drawn explicitly so histories are long even at small rapidcheck sizes
-    return rc::gen::mapcat(rc::gen::inRange<int>(1, max_ops + 1), [=](int len) {
-        return rc::gen::map(rc::gen::tuple(rc::gen::inRange<std::uint32_t>(0, ncfg), rc::gen::container<std::vector<RawOp>>(static_cast<std::size_t>(len), gen_op(ncodes))),
+    return rc::gen::mapcat(rc::gen::resize(100, rc::gen::inRange<int>(1, max_ops + 1)), [=](int len) {
+        return rc::gen::map(rc::gen::tuple(rc::gen::resize(100, rc::gen::inRange<std::uint32_t>(0, ncfg)), rc::gen::container<std::vector<RawOp>>(static_cast<std::size_t>(len), gen_op(ncodes))),
             [](auto const& t) {
                 return OpsCase{std::get<0>(t), std::get<1>(t)};
             });
